@@ -517,6 +517,18 @@ class XPathToken(Token[ta.XPathTokenType]):
             else:
                 return value
 
+    @staticmethod
+    def implicit_timezone_value(value: Any, context: ta.ContextType) -> Any:
+        """
+        Returns the value with the implicit timezone of the dynamic context, if the
+        value is a date/time value without a timezone and an implicit timezone is set.
+        """
+        if isinstance(value, AbstractDateTime) and value.tzinfo is None and \
+                context is not None and context.timezone is not None:
+            value = copy(value)
+            value.tzinfo = context.timezone
+        return value
+
     def iter_comparison_data(self, context: ta.ContextType) -> Iterator[Any]:
         """
         Generates comparison data couples for the general comparison of sequences.
@@ -591,6 +603,11 @@ class XPathToken(Token[ta.XPathTokenType]):
                 case AbstractQName():
                     if not isinstance(op2, (AbstractQName, UntypedAtomic)):
                         raise TypeError(msg.format(type(op1), type(op2)))
+                case AbstractDateTime():
+                    if isinstance(op2, AbstractDateTime):
+                        yield self.implicit_timezone_value(op1, context), \
+                            self.implicit_timezone_value(op2, context)
+                        continue
 
             yield op1, op2
 
